@@ -340,3 +340,13 @@ package inference
 //@    (forall ((s primitiveSite) (t annotation.FullTrigger)) (=> (old (controls e s t)) (controls e s t)))
 //@    (forall ((k Int)) (=> (and (<= 0 k) (< k (len triggers)) (isControlled (idx triggers k))) (controls e (ctrlSite e (idx triggers k)) (idx triggers k))))
 //@    (determinedKept e))
+
+//@ -- C10: an explicit annotation is handed to the engine as a *BecauseAnnotation explanation of the right polarity
+//@ -- for exactly the annotated site (key, deep flag)
+//@ func (*Engine).ObserveAnnotations$1
+//@ prop C10
+//@ requires (engOK e)
+//@ modifies *
+//@ ensures annotation-determines-its-own-site (and (= (calls "observeSiteExplanation") 1)
+//@    (= (callarg "observeSiteExplanation" 0 1) (call |(*primitivizer).site| e.primitive key isDeep))
+//@    (ite val (is (callarg "observeSiteExplanation" 0 2) TrueBecauseAnnotation) (is (callarg "observeSiteExplanation" 0 2) FalseBecauseAnnotation)))
